@@ -3,11 +3,13 @@ import Goat.Driver.Num
 import Goat.Driver.OMap
 import Goat.Driver.Load
 import Goat.Driver.TreeSort
+import Goat.Driver.Scope
 /-! goatmodel: one operation per input line, one canonical output line per operation. -/
 open Goat.Driver
 
 structure DriverState where
   omap : OMapState := {}
+  scope : Goat.Scope.C := {}
 
 def step (st : DriverState) (line : String) : DriverState × String :=
   match (line.trimAscii.toString.splitOn " ").filter (· ≠ "") with
@@ -15,6 +17,7 @@ def step (st : DriverState) (line : String) : DriverState × String :=
   | "num" :: args => (st, numCmd args)
   | "load" :: args => (st, loadCmd args)
   | "tsort" :: args => (st, tsortCmd args)
+  | "scope" :: args => let (s, o) := scopeCmd st.scope args; ({ st with scope := s }, o)
   | "omap" :: args => let (s, o) := omapCmd st.omap args; ({ st with omap := s }, o)
   | _ => (st, "bad-op")
 
